@@ -92,6 +92,26 @@ type runner interface {
 
 var registry = map[string]runner{}
 
+// ambientNote is appended to the rule of every property whose generators draw the
+// ambient settings / wide runs (DESIGN.md 2.6), so that the evidence says so.
+var ambientNote = map[string]string{}
+
+func init() {
+	amb := " Ambient settings that no property names as relevant (mutex, identifier, category, auxiliary map, less closure, accepting validity/push closures, discarding logger at every level) are drawn on a random half of the generated stacks/receivers"
+	wide := "; one generated tree in twelve carries an extra run of 12..40 leaves"
+	lw := "; single-goroutine lock watch: a lock requested while still held is reported as a violation instead of hanging."
+	for _, id := range []string{"C02", "C04", "C05", "C07", "C09", "C12", "C17"} {
+		ambientNote[id] = amb + wide + lw
+	}
+	ambientNote["C11"] = amb + wide + "."
+	for _, id := range []string{"C01", "C03", "C06", "C08", "C13", "C16", "C19", "C20"} {
+		ambientNote[id] = amb + lw
+	}
+	for _, id := range []string{"C14", "C15", "C18"} {
+		ambientNote[id] = " Single-goroutine lock watch: a lock requested while still held is reported as a violation instead of hanging."
+	}
+}
+
 func Register[C any](d Def[C]) {
 	registry[d.ID] = &defRunner[C]{d: d}
 }
@@ -428,7 +448,7 @@ func (r *defRunner[C]) runAll(t *testing.T) {
 	start := time.Now()
 	col := &collector{hashes: map[uint64]struct{}{}, known: loadKnown(r.d.ID), srcCount: map[string]int{}, srcSamples: map[string]int{}}
 	col.p = partial{Property: r.d.ID, Shard: shard, Classes: map[string]int{}, RapidClasses: map[string]int{},
-		ExcludedKnown: map[string]int{}, Rule: r.d.Rule, Assumptions: r.d.Assumptions, EnumNote: r.d.EnumNote}
+		ExcludedKnown: map[string]int{}, Rule: r.d.Rule + ambientNote[r.d.ID], Assumptions: r.d.Assumptions, EnumNote: r.d.EnumNote}
 
 	defer func() {
 		col.mu.Lock()
